@@ -322,6 +322,11 @@ func (gr gradient) paint(dst backend.Canvas, node *svgNode, opacity Fl, dims dra
 	if gr.isUnitsUserSpace {
 		width, height = dims.innerWidth, dims.innerHeight
 	}
+	if width == 0 || height == 0 {
+		// bounding box units can not be used for a shape without width or
+		// height: the paint server fails, and nothing is painted
+		return false
+	}
 
 	// resolve positions values
 	positions := make([]Fl, len(gr.positions))
